@@ -38,10 +38,10 @@ theorem taikoLen_st (sk : Skills S) (objs : List Bool) (g : TaikoGrad S) (i : Na
   · exact taikoLen_canon sk objs g i h.idx h.le
   · exact taikoLen_canon sk objs g i (by rw [h.idx, he]) (by omega)
 
-/-- The exhausted `next`: `None`, and the iterator has been run dry. -/
-theorem taikoNext_exhausted (sk : Skills S) (objs : List Bool) (g : TaikoGrad S)
-    (hc : TaikoCanon sk objs g (hitsIn objs)) :
-    (taikoNext sk objs g).1 = none ∧ TaikoDrained sk objs (taikoNext sk objs g).2 := by
+/-- The exhausted core step from an undrained state: `None`, and the iterator has been run dry. -/
+theorem taikoNextCore_exhausted (sk : Skills S) (objs : List Bool) (g : TaikoGrad S)
+    (hc : TaikoMid sk objs g (hitsIn objs)) :
+    (taikoNextCore sk objs g).1 = none ∧ TaikoDrained sk objs (taikoNextCore sk objs g).2 := by
   obtain ⟨hidx, hcombo, hpos, hsk, _⟩ := hc
   have hH := hitsIn_split objs
   have hn := nHits_eq objs
@@ -50,7 +50,7 @@ theorem taikoNext_exhausted (sk : Skills S) (objs : List Bool) (g : TaikoGrad S)
   have hrem := hitsIn_drop_cutLen (objs.drop 2) (hitsIn objs - firstHits objs) (by omega)
   have hh : hitsIn ((objs.drop 2).drop (cutLen (objs.drop 2) (hitsIn objs - firstHits objs))) = 0 := by omega
   have hl := taikoHitLoop_dry sk (objs.drop 2) ((objs.drop 2).length + 1) g _ hpos hsk hqle hh (by omega)
-  simp only [taikoNext, hcond, if_true, hl]
+  simp only [taikoNextCore, hcond, if_true, hl]
   exact ⟨trivial, ⟨hidx, hcombo, rfl, rfl⟩⟩
 
 /-- Once drained, `next` returns `None` and changes nothing. -/
@@ -64,10 +64,32 @@ theorem taikoNext_drained (sk : Skills S) (objs : List Bool) (g : TaikoGrad S)
     rw [List.drop_length]; rfl
   have hl := taikoHitLoop_dry sk (objs.drop 2) ((objs.drop 2).length + 1) g (objs.drop 2).length hpos hsk
     (Nat.le_refl _) hdrop0 (by omega)
-  simp only [taikoNext, hcond, if_true, hl]
-  congr 1
-  cases g
-  simp_all
+  have hcore : taikoNextCore sk objs g = (none, g) := by
+    simp only [taikoNextCore, hcond, if_true, hl]
+    congr 1
+    cases g
+    simp_all
+  rw [taikoNext_of_core_none sk objs g (by rw [hcore]), hcore]
+
+/-- With at least one hit, the canonical state after the last value is already drained. -/
+theorem TaikoCanon.drained {sk : Skills S} {objs : List Bool} {g : TaikoGrad S}
+    (hc : TaikoCanon sk objs g (hitsIn objs)) (h0 : 0 < hitsIn objs) : TaikoDrained sk objs g := by
+  have hp : taikoPos objs (hitsIn objs) = (objs.drop 2).length := by
+    unfold taikoPos; rw [if_pos ⟨h0, rfl⟩]
+  exact ⟨hc.idx, hc.combo, by rw [hc.pos, hp], by rw [hc.skills, hp]⟩
+
+/-- The exhausted `next`: `None`, and the iterator is dry. -/
+theorem taikoNext_exhausted (sk : Skills S) (objs : List Bool) (g : TaikoGrad S)
+    (hc : TaikoCanon sk objs g (hitsIn objs)) :
+    (taikoNext sk objs g).1 = none ∧ TaikoDrained sk objs (taikoNext sk objs g).2 := by
+  by_cases h0 : hitsIn objs = 0
+  · have hm : TaikoMid sk objs g (hitsIn objs) := hc.toMid (Or.inr h0)
+    obtain ⟨h1, h2⟩ := taikoNextCore_exhausted sk objs g hm
+    rw [taikoNext_of_core_none sk objs g h1]
+    exact ⟨rfl, h2⟩
+  · have hd := hc.drained (by omega)
+    rw [taikoNext_drained sk objs g hd]
+    exact ⟨rfl, hd⟩
 
 /-- `next` maps reachable states to reachable states. -/
 theorem taikoNext_st (sk : Skills S) (objs : List Bool) (g : TaikoGrad S) (i : Nat)
@@ -84,9 +106,9 @@ theorem taikoNext_st (sk : Skills S) (objs : List Bool) (g : TaikoGrad S) (i : N
 /-- The `for _ in 0..take { loop { … } }` part of `nth` from a canonical state at or beyond the hits
 of the first two objects: it advances by exactly `c` hits. -/
 theorem taikoNthLoop_canon (sk : Skills S) (objs : List Bool) :
-    ∀ (c : Nat) (g : TaikoGrad S) (j : Nat), TaikoCanon sk objs g j → firstHits objs ≤ j ∨ c = 0 →
+    ∀ (c : Nat) (g : TaikoGrad S) (j : Nat), TaikoMid sk objs g j → firstHits objs ≤ j ∨ c = 0 →
       j + c ≤ hitsIn objs →
-      ∃ g', taikoNthLoop sk (objs.drop 2) c g = (true, g') ∧ TaikoCanon sk objs g' (j + c)
+      ∃ g', taikoNthLoop sk (objs.drop 2) c g = (true, g') ∧ TaikoMid sk objs g' (j + c)
   | 0, g, j, hc, _, _ => ⟨g, rfl, by simpa using hc⟩
   | c + 1, g, j, hc, hj, hle => by
     have hk : firstHits objs ≤ j := by rcases hj with h | h <;> omega
@@ -107,7 +129,7 @@ theorem taikoNthLoop_canon (sk : Skills S) (objs : List Bool) :
         cutLen ((objs.drop 2).drop (cutLen (objs.drop 2) (j - firstHits objs))) 1 =
         cutLen (objs.drop 2) (j + 1 - firstHits objs) := by
       rw [← cutLen_add]; congr 1; omega
-    have hc' : TaikoCanon sk objs
+    have hc' : TaikoMid sk objs
         { g with iterPos := cutLen (objs.drop 2) (j + 1 - firstHits objs),
                  skills := processedPrefix sk (cutLen (objs.drop 2) (j + 1 - firstHits objs)),
                  maxCombo := g.maxCombo + 1, idx := g.idx + 1 } (j + 1) :=
@@ -117,12 +139,12 @@ theorem taikoNthLoop_canon (sk : Skills S) (objs : List Bool) :
     simp only [taikoNthLoop, hl, hnext]
     exact h1
 
-/-- **`nth`** (as fixed by `fix: gradual difficulty nth(n) returns None when fewer than n+1 values
-remain`), from the canonical state after `i` values: no panic; with more than `n` values remaining it
-returns the value number `i + n + 1` and leaves the canonical state after that many values; otherwise
-it consumes everything that remains, returns `None` and leaves the drained state. -/
-theorem taikoNth_spec (sk : Skills S) (objs : List Bool) (g : TaikoGrad S) (i n : Nat)
-    (hc : TaikoCanon sk objs g i) :
+/-- `nth` from an undrained state after `i` hits (the canonical state when `i < H` or `i = 0`): no panic;
+with more than `n` values remaining it returns the value number `i + n + 1` and leaves the canonical
+state after that many values; otherwise it consumes everything that remains, returns `None` and leaves
+the drained state. -/
+theorem taikoNth_mid (sk : Skills S) (objs : List Bool) (g : TaikoGrad S) (i n : Nat)
+    (hc : TaikoMid sk objs g i) :
     (i + n < hitsIn objs →
       (taikoNth sk objs g n).1 = .some (taikoValue sk objs (i + n + 1)) ∧
       TaikoCanon sk objs (taikoNth sk objs g n).2 (i + n + 1)) ∧
@@ -133,7 +155,7 @@ theorem taikoNth_spec (sk : Skills S) (objs : List Bool) (g : TaikoGrad S) (i n 
   have hn := nHits_eq objs
   -- the state after the `while take > 0 && idx < n_hits` loop
   have hskip : ∀ t, i + t ≤ hitsIn objs →
-      TaikoCanon sk objs
+      TaikoMid sk objs
         { g with idx := g.idx + min t ((taikoFirstCombos objs).nHits - g.idx),
                  maxCombo := g.maxCombo + min t ((taikoFirstCombos objs).nHits - g.idx) }
         (i + min t (firstHits objs - i)) := by
@@ -160,7 +182,7 @@ theorem taikoNth_spec (sk : Skills S) (objs : List Bool) (g : TaikoGrad S) (i n 
   · intro hlt
     have e : i + min n (hitsIn objs - i) = i + n := by omega
     rw [e] at hc2
-    have hnx := (taikoNext_spec sk objs g2 _ hc2).1 hlt
+    have hnx := taikoNext_mid sk objs g2 _ hc2 hlt
     simp only [taikoNth, hlen]
     rw [hn, hidx, hloop]
     simp only
@@ -173,7 +195,9 @@ theorem taikoNth_spec (sk : Skills S) (objs : List Bool) (g : TaikoGrad S) (i n 
   · intro hge
     have e : i + min n (hitsIn objs - i) = hitsIn objs := by omega
     rw [e] at hc2
-    have hnx := taikoNext_exhausted sk objs g2 hc2
+    obtain ⟨hx1, hx2⟩ := taikoNextCore_exhausted sk objs g2 hc2
+    have hnx : (taikoNext sk objs g2).1 = none ∧ TaikoDrained sk objs (taikoNext sk objs g2).2 := by
+      rw [taikoNext_of_core_none sk objs g2 hx1]; exact ⟨rfl, hx2⟩
     simp only [taikoNth, hlen]
     rw [hn, hidx, hloop]
     simp only
@@ -193,6 +217,26 @@ theorem taikoNth_drained (sk : Skills S) (objs : List Bool) (g : TaikoGrad S) (k
     cases g; rfl
   simp only [taikoNth, hl, Nat.min_zero, Nat.zero_min, Nat.sub_self, hg, taikoNthLoop,
     taikoNext_drained sk objs g hd]
+
+/-- **`nth`**, from the canonical state after `i` values: no panic; with more than `n` values remaining it
+returns the value number `i + n + 1` and leaves the canonical state after that many values; otherwise
+it consumes everything that remains, returns `None` and leaves the drained state. -/
+theorem taikoNth_spec (sk : Skills S) (objs : List Bool) (g : TaikoGrad S) (i n : Nat)
+    (hc : TaikoCanon sk objs g i) :
+    (i + n < hitsIn objs →
+      (taikoNth sk objs g n).1 = .some (taikoValue sk objs (i + n + 1)) ∧
+      TaikoCanon sk objs (taikoNth sk objs g n).2 (i + n + 1)) ∧
+    (hitsIn objs ≤ i + n →
+      (taikoNth sk objs g n).1 = .none ∧ TaikoDrained sk objs (taikoNth sk objs g n).2) := by
+  have hle := hc.le
+  by_cases hm : i < hitsIn objs ∨ i = 0
+  · exact taikoNth_mid sk objs g i n (hc.toMid hm)
+  · have heq : i = hitsIn objs := by omega
+    subst heq
+    have hd := hc.drained (by omega)
+    refine ⟨fun h => by omega, fun _ => ?_⟩
+    rw [taikoNth_drained sk objs g n hd]
+    exact ⟨rfl, hd⟩
 
 /-- `nth` maps reachable states to reachable states and never panics. -/
 theorem taikoNth_st (sk : Skills S) (objs : List Bool) (g : TaikoGrad S) (i k : Nat)
